@@ -50,7 +50,7 @@ def oracle_value(oras, case, inp, scalar_type="float64"):
 
 def build(entry, options=None):
     """(objs, cases, compiled, module) for an entry under the given options."""
-    options = dict(options or {})
+    options = {**getattr(entry, "options", {}), **dict(options or {})}
     full = pipeline.default_options(**options)
     objs = entry.build()
     tag = "_".join(f"{k}={v}" for k, v in sorted(options.items())) or "default"
@@ -87,7 +87,7 @@ def entity_choices(case, rng, all_entities):
 def compare_entry(entry, options=None, seed=0, reps=1, all_entities=False, kinds=None, complex_data=False, all_perms=False):
     out = {"name": entry.name, "cases": 0, "compared": 0, "unsupported": [], "bad": [], "maxrel": 0.0, "types": {}}
     try:
-        options = dict(options or {})
+        options = {**getattr(entry, "options", {}), **dict(options or {})}
         st = str(options.get("scalar_type", "float64"))
         objs, cases, comp, mod = build(entry, options)
         oras = oracles_for(entry, objs, complex_mode=st.startswith("complex"), diagonal=options.get("part") == "diagonal")
